@@ -152,8 +152,10 @@ func c15Paint(stops c15Stops, spread, shape int, m [6]float32, mp c15Map, ras *r
 	ras.ResetLog()
 	z.SetRasterizer(ras, mp.rect)
 	z.Reset(mp.vb, ivg.DefaultPalette)
-	z.SetCSel(10)
-	z.SetNSel(10)
+	// CBASE 12, NBASE 20 (different on purpose); with 58 stops the colours wrap to CREG[5] and the
+	// offsets to NREG[13]; the matrix sits in NREG[14..19], the gradient value in CREG[8]
+	z.SetCSel(12)
+	z.SetNSel(20)
 	for i := 0; i < 6; i++ {
 		z.SetNReg(uint8(6-i), false, m[i])
 	}
@@ -161,8 +163,8 @@ func c15Paint(stops c15Stops, spread, shape int, m [6]float32, mp c15Map, ras *r
 		z.SetCReg(0, true, ivg.RGBAColor(s.Color))
 		z.SetNReg(0, true, float32(s.Offset))
 	}
-	z.SetCSel(5)
-	z.SetCReg(0, false, ivg.RGBAColor(color.RGBA{uint8(len(stops)), 10 | uint8(spread)<<6, 10 | 0x80 | uint8(shape)<<6, 0}))
+	z.SetCSel(8)
+	z.SetCReg(0, false, ivg.RGBAColor(color.RGBA{uint8(len(stops)), 12 | uint8(spread)<<6, 20 | 0x80 | uint8(shape)<<6, 0}))
 	z.StartPath(0, mp.vb.MinX, mp.vb.MinY)
 	z.AbsLineTo(mp.vb.MaxX, mp.vb.MinY)
 	z.AbsLineTo(mp.vb.MaxX, mp.vb.MaxY)
